@@ -634,7 +634,17 @@ func (a *App) UseScheme(scheme string) {
 // Clk is the model clock.
 type Clk struct{ A *App }
 
-func (c Clk) Now() time.Time { return c.A.Now }
+func (c Clk) Now() time.Time {
+	a := c.A
+	// under the cooperative scheduler reading the clock is a scheduling point: the library reads it
+	// in the middle of producing a response
+	if a.S != nil {
+		if t := a.S.Current(); t != nil {
+			a.S.Point(t, mc.Op{Name: "Clock.Now"})
+		}
+	}
+	return a.Now
+}
 
 // ---------------------------------------------------------------------------------------
 // counting response writer
